@@ -36,10 +36,41 @@ theorem c05_wire_covers_spec (content : Text) (p q : PkgInfo) (h : Bump.locateBy
   obtain ⟨hs, h1, h2, _, _, _, _, he, _, _⟩ := Bump.locate_covers content p q h
   exact ⟨by rw [he]; exact hs, h1, by rw [he]; exact h2⟩
 
-/-- a publication changes on the wire in its ranges only, and every range is converted with the text the server holds
-    for THAT document -/
+/-- a publication changes on the wire in two ways only: diagnostics of values written over several lines are dropped, and
+    every remaining range is converted with the text the server holds for THAT document -/
 theorem c05_wire_pub (s : Srv) (uri : Text) (ds : List Diag) :
-    wire s (.pub uri ds) = .pub uri (ds.map (wireDiag (textOf0 s.texts uri))) := rfl
+    wire s (.pub uri ds) =
+      .pub uri ((ds.filter fun d => onOneLine (textOf0 s.texts uri) d.pkg.column d.pkg.startOffset d.pkg.endOffset).map
+        (wireDiag (textOf0 s.texts uri))) := rfl
+
+/-- **every range on the wire lies on one line** (F-C05-5, repaired): a diagnostic that goes out belongs to a package
+    whose range contains no line break and starts on the reported line -/
+theorem c05_wire_one_line (s : Srv) (uri : Text) (ds out : List Diag) (h : wire s (.pub uri ds) = .pub uri out)
+    (d' : Diag) (hd : d' ∈ out) :
+    ∃ d ∈ ds, d' = wireDiag (textOf0 s.texts uri) d ∧
+      onOneLine (textOf0 s.texts uri) d.pkg.column d.pkg.startOffset d.pkg.endOffset = true := by
+  rw [c05_wire_pub] at h
+  injection h with _ hout
+  rw [← hout] at hd
+  obtain ⟨d, hdm, rfl⟩ := List.mem_map.mp hd
+  obtain ⟨hin, hone⟩ := List.mem_filter.mp hdm
+  exact ⟨d, hin, rfl, hone⟩
+
+/-- what "on one line" means on a document that splits at the range: no line break in the line prefix, none in the range -/
+theorem onOneLine_spec (before lp mid post : Text) (column so eo : Nat)
+    (hcol : column = byteLen lp) (hso : so = byteLen before + byteLen lp) (heo : eo = so + byteLen mid) :
+    onOneLine (before ++ lp ++ mid ++ post) column so eo = (!(mid.any (· == '\n')) && !(lp.any (· == '\n'))) := by
+  unfold onOneLine
+  have hle : column ≤ so := by omega
+  have h1 : slice (before ++ lp ++ mid ++ post) (so - column) so = some lp := by
+    have e : before ++ lp ++ mid ++ post = before ++ lp ++ (mid ++ post) := by simp
+    have ea : so - column = byteLen before := by omega
+    rw [e, ea, hso]; exact slice_append before lp (mid ++ post)
+  have h2 : slice (before ++ lp ++ mid ++ post) so eo = some mid := by
+    have ea : so = byteLen (before ++ lp) := by rw [byteLen_append]; exact hso
+    have eb : eo = byteLen (before ++ lp) + byteLen mid := by rw [← ea]; exact heo
+    rw [ea, eb]; exact slice_append (before ++ lp) mid post
+  simp only [h1, h2, hle, if_true]
 
 /-- when the offsets do not fit the text (a stale or foreign package), the byte columns go out unchanged -/
 theorem c05_wire_fallback (content : Text) (d : Diag)
